@@ -12,6 +12,30 @@ open DV DV.Brent
 @[simp] theorem lit_rat (n : Nat) : (Lit.lit n : ℚ) = (n : ℚ) := rfl
 @[simp] theorem lit'_rat (n : Nat) : (DV.Brent.lit n : ℚ) = (n : ℚ) := rfl
 
+theorem signC_q (x : ℚ) : signC x = if x < 0 then -1 else if 0 < x then 1 else 0 := by
+  unfold signC; simp
+
+/-- comparing signs is comparing the product (over ℚ, where no product underflows) -/
+theorem signC_mul_neg_iff (x y : ℚ) : signC x * signC y < 0 ↔ x * y < 0 := by
+  simp only [signC_q]
+  rcases lt_trichotomy x 0 with hx | hx | hx <;> rcases lt_trichotomy y 0 with hy | hy | hy
+  · simp [hx, hy, mul_pos_of_neg_of_neg hx hy |>.le |> not_lt.mpr]
+  · simp [hx, hy]
+  · have : ¬ y < 0 := not_lt.mpr hy.le
+    simp [hx, hy, this, mul_neg_of_neg_of_pos hx hy]
+  · simp [hx, hy]
+  · simp [hx, hy]
+  · simp [hx, hy]
+  · have : ¬ x < 0 := not_lt.mpr hx.le
+    simp [hx, hy, this, mul_neg_of_pos_of_neg hx hy]
+  · simp [hx, hy]
+  · have h1 : ¬ x < 0 := not_lt.mpr hx.le
+    have h2 : ¬ y < 0 := not_lt.mpr hy.le
+    simp [hx, hy, h1, h2, (mul_pos hx hy).le |> not_lt.mpr]
+
+theorem signC_mul_nonneg_iff (x y : ℚ) : 0 ≤ signC x * signC y ↔ 0 ≤ x * y := by
+  rw [← not_lt, ← not_lt, signC_mul_neg_iff]
+
 theorem absC_rat (x : ℚ) : absC x = |x| := by
   unfold absC
   simp only [lit_rat, Nat.cast_zero]
@@ -80,7 +104,7 @@ theorem iter_inv (f : ℚ → ℚ) (lo hi tol : ℚ) (st : St ℚ) (h : Inv f lo
   have hupd : let q := upd st s (f s)
       InHull lo hi q.1 ∧ InHull lo hi q.2.1 ∧ q.2.2.1 = f q.1 ∧ q.2.2.2 = f q.2.1 ∧ q.2.2.1 * q.2.2.2 ≤ 0 := by
     unfold upd
-    simp only [lit'_rat, Nat.cast_zero]
+    simp only [signC_mul_neg_iff]
     split
     · rename_i hlt
       exact ⟨h.ha, hsH, h.hfa, rfl, le_of_lt hlt⟩
@@ -283,7 +307,7 @@ theorem iter_fs_zero (f : ℚ → ℚ) (tol : ℚ) (st : St ℚ) (h : (iter f to
   unfold iter at h ⊢
   simp only at h ⊢
   unfold upd swp
-  simp only [h, mul_zero, lit'_rat, Nat.cast_zero, lt_self_iff_false, if_false, absC_rat, abs_zero]
+  simp only [h, signC_mul_neg_iff, mul_zero, lt_self_iff_false, if_false, absC_rat, abs_zero]
   split
   · rfl
   · rename_i hlt
